@@ -587,7 +587,10 @@ def invertibility(prog: Program, run: Run, R: str) -> None:
                               "non-invertible when adjacent segments AGREE at their common "
                               "boundary; the ODX condition is that they must not differ "
                               "(|y0 - y1| > tolerance)", _loc(f, a), stmt_key(ifn))
-        elif "!=" in s and "value" in s:
+        elif "value" in s and (("!=" in s and in_body) or (
+                not in_body and isinstance(t, ast.Compare) and len(t.ops) == 1 and
+                isinstance(t.ops[0], ast.Eq))):
+            # (`if a != b: no` or the else branch of `if a == b: ...`)
             kinds["reference-point"] = True
             run.ok(R, C, "non-invertible when adjacent segments use different reference points",
                    _loc(f, a))
